@@ -152,7 +152,8 @@ func c08Scenario(kind int) {
 	before := snapC08(h, key, uploadID)
 	rq := Req{Method: "PUT", Path: "/bkt/" + key, Header: hdr, Body: rd, Length: int64(declared)}
 	if target == 1 {
-		rq.Query = url.Values{"uploadId": {uploadID}, "partNumber": {"2"}}
+		// a new part number, or a second upload of the part that is already there
+		rq.Query = url.Values{"uploadId": {uploadID}, "partNumber": {itoa(1 + vsym.Choice("partnumber", 2))}}
 	}
 	r := Do(h, rq)
 
